@@ -8,6 +8,7 @@ import (
 	"fmt"
 	"go/token"
 	"go/types"
+	"os"
 	"regexp"
 	"strings"
 
@@ -1045,4 +1046,66 @@ func (x *Exec) pureFallback(st *State, fr *Frame, c *callCtx) bool {
 	fail := x.sym.Fresh(fn.Name()+".fails", SBool)
 	x.finish(st, fr, c, VTuple{[]Value{VScalar{res}, x.freshErr(st, fn.Name()+".err", Not(fail))}})
 	return true
+}
+
+// capturedRequires: a closure whose contract states preconditions on its captured variables ("requires
+// [captured] e") is verified assuming them; they are proved where the closure is created, over the variables
+// it captures at that point (a clause that also names a parameter of the closure is not about the creation
+// site and is left to the call sites).
+func (x *Exec) capturedRequires(st *State, fr *Frame, mc *ssa.MakeClosure, binds []Value) {
+	fn := mc.Fn.(*ssa.Function)
+	ct := x.prog.contracts.byKey[x.prog.funcKey(fn)]
+	if ct == nil || len(st.frames) == 0 || x.contract == nil {
+		return
+	}
+	cs := sigOfFunc(fn)
+	for _, cl := range ct.Requires {
+		captured := false
+		for _, p := range cl.Props {
+			if p == "captured" {
+				captured = true
+			}
+		}
+		if !captured {
+			continue
+		}
+		config := false
+		for _, p := range cl.Props {
+			if p == "config" {
+				config = true
+			}
+		}
+		if config {
+			// "[captured config]": the captured value comes from the operator's configuration file, which the
+			// properties do not quantify over; stays an assumption, listed as such
+			x.notes["ASSUMED: captured precondition of "+fn.Name()+" on operator configuration (not proved where the closure is created): "+cl.Text] = true
+			continue
+		}
+		env := &SpecEnv{x: x, st: st, vars: map[string]TV{}}
+		env.pkg = cs.pkg
+		for k, fv := range fn.FreeVars {
+			if k >= len(binds) {
+				break
+			}
+			if pt, ok := fv.Type().Underlying().(*types.Pointer); ok {
+				if p, ok := binds[k].(VPtr); ok && p.Loc != nil {
+					env.vars[fv.Name()] = TV{env.loadLoc(p.Loc, pt.Elem()), pt.Elem()}
+					continue
+				}
+			}
+			env.vars[fv.Name()] = TV{binds[k], fv.Type()}
+		}
+		x.extendEnv(env, st, fr)
+		t, err := env.EvalBool(cl.Text)
+		if err != nil {
+			if os.Getenv("GOVC_DEBUG_CAPTURED") != "" {
+				fmt.Fprintln(os.Stderr, "captured requires of", fn.Name(), "not evaluated:", err)
+			}
+			continue
+		}
+		x.oblige(st, "requires", fmt.Sprintf("captured precondition of %s where the closure is created: %s", fn.Name(), cl.Text), t, mc.Pos(), ct.clauseProps(cl))
+		if st.dead {
+			return
+		}
+	}
 }
